@@ -256,6 +256,26 @@ def run_property(prop, tier="quick", root="/repo/verde", overlay=None, write=Tru
                     code = 2
                     lines.append("ANALYSIS-ERROR property=%s seeded change %s is no longer reported (exit %d, after rewrites %d): insensitive rule" % (prop, d.name, c3, c4))
             ctx.extra_coverage["seeded_changes"] = sd
+            # (4) the independently written BEHAVIOUR-PRESERVING rewrites filed under /verif/neutral (confirmed by byte-identical transcripts on
+            # thousands of calls) are applied to the current source in memory: a VIOLATED verdict on any of them is a false alarm of this check
+            nt = []
+            for d in sorted((VERIF / "neutral").iterdir()) if (VERIF / "neutral").is_dir() else []:
+                pp = d / "patch.diff"
+                if not pp.exists():
+                    continue
+                try:
+                    ov = patching.overlay_for(pp.read_text(), root)
+                except patching.DoesNotApply as e:
+                    nt.append({"rewrite": d.name, "applied": False, "why": str(e)})
+                    continue
+                c5, _c, l5 = run_property(prop, "quick", root=root, overlay=ov, write=False, quiet=True)
+                nt.append({"rewrite": d.name, "applied": True, "exit": c5})
+                if c5 == 1:
+                    code = 2
+                    lines.append("ANALYSIS-ERROR property=%s false alarm on the behaviour-preserving rewrite %s: %s" % (prop, d.name, "; ".join(x.strip() for x in l5 if x.startswith("  C"))[:300]))
+            ctx.extra_coverage["behaviour_preserving_rewrites"] = nt
+            lines.append("%s thorough: %d filed behaviour-preserving rewrites re-applied in memory: %d silent, %d undecided, %d false alarms" % (
+                prop, sum(1 for x in nt if x["applied"]), sum(1 for x in nt if x.get("exit") == 0), sum(1 for x in nt if x.get("exit") == 2), sum(1 for x in nt if x.get("exit") == 1)))
             lines.append("%s thorough: rewritten tree exit %d; %d filed breaking changes re-applied in memory, %d reported, %d reported after rewrites" % (
                 prop, c2, sum(1 for x in sd if x["applied"]), sum(1 for x in sd if x.get("reported")), sum(1 for x in sd if x.get("reported_after_rewrites"))))
         else:
